@@ -112,8 +112,7 @@ Section Ghost.
               if nVar <? 0 then inr (RFail "runtime error" pos s) else
               match popn (Z.to_nat nVar) ops [] with
               | Some (vargs, rest) =>
-                  let e := Type_value vtype in
-                  let (s1, sv) := new_slice s e (map (fun a => Value_assign a e) vargs) in
+                  let (s1, sv) := variadic_arg s vtype nVar vargs in
                   inl (sv :: rest, xArgs - nVar + 1, s1)
               | None => inr (RStuck "variadic arguments")
               end
